@@ -82,6 +82,7 @@ impl Prop for C12 {
     fn strategy(&self, _tier: Tier) -> BoxedStrategy<Case> {
         prop_oneof![
             3 => arb_d().prop_map(|x| Case { x }),
+            1 => (arb_word_coeff(), arb_scale()).prop_map(|(c, s)| Case { x: D::new(c, s) }),
             5 => midpoint_case(),
             1 => integral_case(),
         ]
